@@ -310,7 +310,57 @@ impl World {
         let b = op.get("b").cloned().ok_or("par: field 'b' missing")?;
         let order: Vec<u8> = gs(op, "order")?.bytes().map(|c| if c == b'A' { 0 } else { 1 }).collect();
         let gate = crate::simrng::Gate::new(&order);
+        // stateful objects go with the caller that names them (a caller's op may name several); the
+        // two callers must not name the same object: one object is one caller's
+        fn names(v: &Value, out: &mut std::collections::BTreeSet<String>) {
+            match v {
+                Value::String(s) => {
+                    out.insert(s.clone());
+                }
+                Value::Array(a) => a.iter().for_each(|x| names(x, out)),
+                Value::Object(m) => m.values().for_each(|x| names(x, out)),
+                _ => {}
+            }
+        }
+        let (mut na, mut nb) = (Default::default(), Default::default());
+        names(&a, &mut na);
+        names(&b, &mut nb);
+        let mut objs = std::mem::take(&mut self.objs);
+        let (mut oa, mut ob) = (crate::objs::Objs::default(), crate::objs::Objs::default());
+        for k in objs.kex.keys().cloned().collect::<Vec<_>>() {
+            match (na.contains(&k), nb.contains(&k)) {
+                (true, true) => {
+                    self.objs = objs;
+                    return Err(format!("par: both callers name object '{k}'"));
+                }
+                (true, false) => {
+                    oa.kex.insert(k.clone(), objs.kex.remove(&k).unwrap());
+                }
+                (false, true) => {
+                    ob.kex.insert(k.clone(), objs.kex.remove(&k).unwrap());
+                }
+                _ => {}
+            }
+        }
+        for k in objs.zuc.keys().cloned().collect::<Vec<_>>() {
+            match (na.contains(&k), nb.contains(&k)) {
+                (true, true) => {
+                    self.objs = objs;
+                    return Err(format!("par: both callers name object '{k}'"));
+                }
+                (true, false) => {
+                    oa.zuc.insert(k.clone(), objs.zuc.remove(&k).unwrap());
+                }
+                (false, true) => {
+                    ob.zuc.insert(k.clone(), objs.zuc.remove(&k).unwrap());
+                }
+                _ => {}
+            }
+        }
         let (mut wa, mut wb) = (self.fork(), self.fork());
+        self.objs = objs;
+        wa.objs = oa;
+        wb.objs = ob;
         wa.pre_violated = !self.violations.is_empty() || self.pre_violated;
         wb.pre_violated = wa.pre_violated;
         let run = |mut w: World, o: Value, me: u8, g: std::sync::Arc<crate::simrng::Gate>| {
@@ -339,7 +389,9 @@ impl World {
         let (wa, ra) = ha.join().map_err(|_| "par: thread A panicked".to_string())?;
         let (wb, rb) = hb.join().map_err(|_| "par: thread B panicked".to_string())?;
         let step = self.history.len();
-        for w in [wa, wb] {
+        for mut w in [wa, wb] {
+            self.objs.kex.append(&mut w.objs.kex);
+            self.objs.zuc.append(&mut w.objs.zuc);
             if let Some(e) = w.invalid {
                 return Err(format!("par: inner op invalid: {e}"));
             }
